@@ -77,7 +77,7 @@ CLAIMED.update({
     'C18': _p('other', T_DED + ' relative to an ASSUMED DfuSe device contract: request builders, sleep contract, loop-rule VCs of the erase/write loops for symbolic firmware length; bounded simulated device',
               'Proof (cli_main against the callee contract of dfu_get_status, itself proved): request bytes, poll delay waited on every GETSTATUS, page arithmetic and address bounds for all lengths and variants, chunk = k-th page of the zero-padded image, no request while the last reported state is dfuDNBUSY. Bounded: real cli_main against a simulated DfuSe device (NOR programming semantics on a flash that holds an older image, firmware contents with blank pages).',
               'Device behaviour is an assumption about hardware; polling termination not proved.', 'DESIGN 4 C18'),
-    'C19': _p('other', T_DED + ': effect ordering (size guard dominates the first request) and loop-body obligation (an iteration completes only with STATUS_OK) on the real dfu.cli_main; bounded error injections',
+    'C19': _p('other', T_DED + ': effect ordering (size guard dominates the first request) and loop-body obligation (an iteration completes only with STATUS_OK; one left by break after an error status must end in a failure exit) on the real dfu.cli_main; bounded error injections',
               'Proof on every path with arbitrary GETSTATUS responses; bounded single/double error-status injections and oversize lengths against the simulated device.',
               'Assumed device contract; a raw USB error also ends the run non-zero.', 'DESIGN 4 C19'),
 })
